@@ -182,8 +182,13 @@ case("c20-imul-on-fqp", "C20", OFE, "    def __rmul__(self: T_FQP, other: Union[
      "    def __rmul__(self: T_FQP, other: Union[int, T_FQP]) -> T_FQP:\n        return self * other\n\n    def __imul__(self: T_FQP, other: Union[int, T_FQP]) -> T_FQP:\n        r = self * other\n        self.coeffs = r.coeffs\n        return self")
 case("c20-inplace-coeff-update", "C20", OFE, "        return type(self)([-c for c in self.coeffs])\n\n    @cached_property",
      "        b = self.coeffs\n        b = self.modulus_coeffs if False else b\n        self.coeffs = tuple(-c for c in b)\n        return self\n\n    @cached_property")
-case("c20-lru-cache", "C20", "py_ecc/bls/hash_to_curve.py", "def map_to_curve_G2(u: FQ2) -> G2Uncompressed:", "@lru_cache(maxsize=128)\ndef map_to_curve_G2(u: FQ2) -> G2Uncompressed:",
-     more=[("py_ecc/bls/hash_to_curve.py", "from typing import (\n    Tuple,\n)", "from functools import (\n    lru_cache,\n)\nfrom typing import (\n    Tuple,\n)", 1)])
+# lru_cache on a module-level function of hashable immutable arguments is a transparent memo (silent); on a method the
+# instance is part of the key and stays flagged; a cached mutable result that a caller writes is seed C20-r2-c
+case("c20-twin-lru-cache-on-i2osp", ["C20", "C15", "C09", "C11"], "py_ecc/bls/hash.py", "def i2osp(x: int, xlen: int) -> bytes:",
+     "@lru_cache(maxsize=1024)\ndef i2osp(x: int, xlen: int) -> bytes:", expect="silent",
+     more=[("py_ecc/bls/hash.py", "import hashlib\n", "from functools import (\n    lru_cache,\n)\nimport hashlib\n", 1)])
+case("c20-lru-cache-on-method", "C20", OFE, "    def inv(self: T_FQP) -> T_FQP:", "    @lru_cache(maxsize=128)\n    def inv(self: T_FQP) -> T_FQP:",
+     more=[(OFE, "from functools import (\n", "from functools import (\n    lru_cache,\n", 1)])
 case("c20-random-nonce", "C20", "py_ecc/secp256k1/secp256k1.py", "import hashlib\nimport hmac\n", "import hashlib\nimport hmac\nimport os\n")
 case("c20-mutable-default", "C20", "py_ecc/bls/hash.py", "def xor(a: bytes, b: bytes) -> bytes:", "def xor(a: bytes, b: bytes, scratch: list = []) -> bytes:")
 case("c20-param-list-mutated", "C20", "py_ecc/utils.py", "    temp = [x for x in a]\n    o = [0 for x in a]\n    for i in range(dega - degb, -1, -1):\n        o[i] += int(temp[degb + i] / b[degb])",
@@ -555,3 +560,25 @@ case("c08-twin-fqp-add-int-embedded", ["C08", "C14", "C13"], FE,
      "    def __add__(self: T_FQP, other: T_FQP) -> T_FQP:\n",
      "    def __add__(self: T_FQP, other: T_FQP) -> T_FQP:\n        if isinstance(other, int):\n"
      "            return type(self)([self.coeffs[0] + other] + list(self.coeffs[1:]))\n", expect="silent")
+
+# constructor that reduces only when a coefficient is out of range: correct with >=, leaves p itself with >
+OFE = "py_ecc/fields/optimized_field_elements.py"
+_CTOR = ("            self.coeffs: Tuple[IntOrFQ, ...] = tuple(\n                coeff % self.field_modulus for coeff in coeffs\n            )\n")
+case("c08-twin-ctor-reduces-when-out-of-range", ["C08", "C14", "C13", "C10"], OFE, _CTOR,
+     "            if min(coeffs) < 0 or max(coeffs) >= self.field_modulus:\n"
+     "                coeffs = [coeff % self.field_modulus for coeff in coeffs]\n"
+     "            self.coeffs: Tuple[IntOrFQ, ...] = tuple(coeffs)\n", expect="silent")
+case("c08-ctor-keeps-p-unreduced", ["C08", "C14"], OFE, _CTOR,
+     "            if min(coeffs) < 0 or max(coeffs) > self.field_modulus:\n"
+     "                coeffs = [coeff % self.field_modulus for coeff in coeffs]\n"
+     "            self.coeffs: Tuple[IntOrFQ, ...] = tuple(coeffs)\n")
+
+# FQ.__pow__ fast path through the three-argument builtin, guarded by an exact-type test
+_POWHEAD = "    def __pow__(self: T_FQ, other: int) -> T_FQ:\n"
+case("c08-twin-pow-fast-path-builtin", ["C08", "C14"], FE, _POWHEAD,
+     "    def __pow__(self: T_FQ, other: int) -> T_FQ:\n        if type(other) is int and other > 0:\n"
+     "            return type(self)(pow(self.n, other, self.field_modulus))\n", expect="silent")
+case("c08-pow-fast-path-fermat-fold", ["C08"], FE, _POWHEAD,
+     "    def __pow__(self: T_FQ, other: int) -> T_FQ:\n        if type(other) is int and other > 0:\n"
+     "            return type(self)(pow(self.n, other % (self.field_modulus - 1), self.field_modulus))\n",
+     rule="C08.R5")
